@@ -474,6 +474,14 @@ def check_long_history(hist):
 
 
 def _rj(x):
+    """repr without memory addresses"""
+    if isinstance(x, tuple):
+        return '(' + ', '.join(_rj(e) for e in x) + (',)' if len(x) == 1
+                                                      else ')')
+    if isinstance(x, list):
+        return '[' + ', '.join(_rj(e) for e in x) + ']'
+    if callable(x) and hasattr(x, '__name__'):
+        return '<function %s>' % x.__name__
     return repr(x)
 
 
@@ -765,7 +773,7 @@ for sc in scen:
         if not main._atexitq.empty():
             err = 'queue not empty after _shutdown'
     except Exception as e:
-        err = type(e).__name__ + ': ' + str(e)
+        err = type(e).__name__
     try:
         main._atexitq.clear()
     except Exception:
